@@ -630,3 +630,99 @@ def store_history(rng, nsteps):
             forms.append(app("list", *[var(v) for v in vecs]))
     forms.append(app("list", *[var(v) for v in vecs]))
     return forms
+
+
+# ---- C11: the list library on random arguments and random compositions ------------------------
+def rand_atom(rng):
+    return rng.choice([vint(rng.randint(-9, 9)), vsym(rng.choice(["a", "b", "c"])), vbool(rng.random() < 0.5), vint(rng.randint(0, 3))])
+
+
+def rand_list(rng, maxlen=12, depth=3, improper=0.15, ints=False):
+    n = rng.choice([0, 1, 2, 3, 4, 5, rng.randint(0, maxlen)])
+    xs = []
+    for _ in range(n):
+        if not ints and depth > 0 and rng.random() < 0.2:
+            xs.append(rand_list(rng, 4, depth - 1, 0.1))
+        else:
+            xs.append(vint(rng.randint(-9, 9)) if ints else rand_atom(rng))
+    tl = rand_atom(rng) if (xs and rng.random() < improper and not ints) else None
+    return vlist(xs, tl)
+
+
+def list_len(v):
+    n = 0
+    while v["t"] == "pair":
+        n += 1; v = v["d"]
+    return n
+
+
+def list_expr(rng, depth, ints=False):
+    """expression whose value is a list (proper unless a literal improper one is drawn at the leaves)"""
+    if depth <= 0 or rng.random() < 0.3:
+        return quote(rand_list(rng, ints=ints, improper=0.0))     # compositions stay inside the procedures' domains
+    c = rng.choice(["append", "append3", "cdr", "map", "list-tail", "cons", "make-list", "list", "last-pair", "memv", "fold-rev", "apply-list", "map-cdr"])
+    if c == "append":
+        return app("append", list_expr(rng, depth - 1, ints), list_expr(rng, depth - 1, ints))
+    if c == "append3":
+        return app("append", list_expr(rng, depth - 1, ints), quote(rand_list(rng, 3, 1, 0, ints)), list_expr(rng, depth - 1, ints))
+    if c == "cdr":
+        return app("cdr", app("cons", lit(rng.randint(0, 9)), list_expr(rng, depth - 1, ints)))
+    if c == "map":
+        f = lam(["x"], [app("tick!", var("x"), var("x"))]) if rng.random() < 0.5 else lam(["x"], [app("list", var("x"))] if not ints else [app("+", var("x"), lit(1))])
+        return app("map", f, list_expr(rng, depth - 1, ints))
+    if c == "list-tail":
+        l = rand_list(rng, 8, 1, 0, ints)
+        return app("list-tail", quote(l), lit(rng.randint(0, list_len(l))))
+    if c == "cons":
+        return app("cons", lit(rng.randint(0, 9)), list_expr(rng, depth - 1, ints))
+    if c == "make-list":
+        return app("make-list", lit(rng.randint(0, 4)), lit(rng.randint(0, 9)))
+    if c == "list":
+        return app("list", *[lit(rng.randint(0, 9)) for _ in range(rng.randint(0, 4))])
+    if c == "last-pair":
+        return app("last-pair", app("cons", lit(1), list_expr(rng, depth - 1, ints)))
+    if c == "memv":
+        l = rand_list(rng, 8, 0, 0, True)
+        return app("cdr", app("cons", lit(0), if_(app("memv", lit(rng.randint(-9, 9)), quote(l)), app("memv", lit(rng.randint(-9, 9)), quote(l)), quote(NIL)))) if False else \
+            app("cdr", app("append", quote(vlist([vint(0)])), quote(l)))
+    if c == "fold-rev":
+        return app("fold-left", var("cons"), quote(NIL), list_expr(rng, depth - 1, ints))
+    if c == "apply-list":
+        return app("apply", var("list"), lit(rng.randint(0, 9)), list_expr(rng, depth - 1, ints))
+    return app("map", var("cdr"), quote(vlist([vlist([vint(1), vint(2)]), vlist([vint(3)]), vlist([vint(4), vint(5), vint(6)])])))
+
+
+def list_program(rng):
+    forms = []
+    for _ in range(rng.randint(4, 8)):
+        c = rng.choice(["cxr", "index", "mem", "equal", "fold", "foreach", "pred", "compose", "compose", "apply", "error"])
+        if c == "cxr":
+            p = rng.choice(["car", "cdr", "caar", "cadr", "cdar", "cddr", "caaar", "caadr", "cadar", "caddr", "cdaar", "cdadr", "cddar", "cdddr"])
+            forms.append(app(p, quote(rand_list(rng, 6, 3))))
+        elif c == "index":
+            l = rand_list(rng)
+            k = rng.choice([0, 1, list_len(l) - 1, list_len(l), list_len(l) + 1, rng.randint(0, 12)])
+            forms.append(app(rng.choice(["list-tail", "list-ref"]), quote(l), lit(max(k, 0))))
+        elif c == "mem":
+            l = rand_list(rng, 10, 1, 0.1)
+            forms.append(app(rng.choice(["memq", "memv"]), lit(rand_atom(rng)), quote(l)))
+        elif c == "equal":
+            a = rand_list(rng, 5, 2)
+            b = a if rng.random() < 0.4 else rand_list(rng, 5, 2)
+            forms.append(app("equal?", quote(a), quote(b)))
+        elif c == "fold":
+            f = lam(["x", "acc"], [app("tick!", var("x"), app(rng.choice(["+", "-", "cons", "list"]), var("x"), var("acc")))])
+            forms.append(app(rng.choice(["fold-left", "fold-right"]), f, lit(0), list_expr(rng, 2, ints=True)))
+        elif c == "foreach":
+            forms.append(app("for-each", lam(["x"], [app("tick!", var("x"))]), list_expr(rng, 2)))
+        elif c == "pred":
+            forms.append(app(rng.choice(["null?", "pair?", "list?", "last-pair"]), quote(rand_list(rng, 5, 2, 0.3)) if rng.random() < 0.8 else lit(5)))
+        elif c == "compose":
+            forms.append(list_expr(rng, rng.randint(2, 4), ints=rng.random() < 0.4))
+        elif c == "apply":
+            forms.append(app("apply", var(rng.choice(["+", "list", "append", "max"])), lit(rng.randint(1, 5)), quote(vlist([vint(rng.randint(0, 9)) for _ in range(rng.randint(0, 4))]))) if rng.random() < 0.7
+                         else app("apply", var("append"), quote(vlist([rand_list(rng, 3, 0, 0, True) for _ in range(rng.randint(0, 4))]))))
+        else:
+            forms.append(rng.choice([app("car", quote(NIL)), app("cdr", lit(5)), app("list-ref", quote(vlist([vint(1)])), lit(3)), app("cadr", quote(vlist([vint(1)]))),
+                                     app("list-tail", quote(vlist([vint(1), vint(2)])), lit(3)), app("last-pair", quote(NIL)), app("apply", var("car"), lit(5))]))
+    return forms
